@@ -331,6 +331,21 @@ pub fn dup_path_case(seed: u64, idx: u64) -> Case {
     }
 }
 
+pub fn big_texture_case(seed: u64) -> Case {
+    let mut rng = Rng::new(rng::mix(seed, "c17-big", 0));
+    let png = encode_png(64, 64, &gen_pixels(64, 64, &mut rng));
+    let mut steps = vec![Step::new(vec![s("truanm"), s("compile"), s("-g"), s("th12"), s("gen.spec"), s("-i"), s("gen"), s("-o"), s("orig.anm")])];
+    steps.extend(roundtrip_steps("orig.anm", "th12"));
+    Case {
+        property: "C17".into(),
+        oracle: "extract-roundtrip".into(),
+        name: "generated-big th12 fmt=1 64x64+0+0".into(),
+        inputs: vec![Input::tree("map/"), Input::text("gen.spec", &gen_spec(1, 0, 0, 1)), Input::bytes(&format!("gen/{}", PATH), png)],
+        steps,
+        meta: json!({"first": 1, "item": "generated"}),
+    }
+}
+
 pub fn multisource_cases(seed: u64, n: u64) -> Vec<Case> {
     let mut out = vec![];
     for idx in 0..n {
@@ -342,10 +357,13 @@ pub fn multisource_cases(seed: u64, n: u64) -> Vec<Case> {
         for d in ["dirA", "dirB", "dirC"] {
             inputs.push(Input::bytes(&format!("{}/{}", d, PATH), encode_png(w, h, &gen_pixels(w, h, &mut rng))));
         }
+        // dirL: the image file is a symbolic link to dirB's image; dirM: a symlinked directory (-> dirA)
+        inputs.push(Input::symlink(&format!("dirL/{}", PATH), &format!("../../dirB/{}", PATH)));
+        inputs.push(Input::symlink("dirM", "dirA"));
         // setup: srcC.anm embeds image C
         let setup = Step::new(vec![s("truanm"), s("compile"), s("-g"), s(game), s("gen.spec"), s("-i"), s("dirC"), s("-o"), s("srcC.anm")]);
         // draw an ordering of 1..3 sources out of {dirA, dirB, srcC.anm, dirE (empty), dirO (other path)}
-        let pool = ["dirA", "dirB", "srcC.anm", "dirE", "dirO"];
+        let pool = ["dirA", "dirB", "srcC.anm", "dirE", "dirO", "dirL", "dirM"];
         let k = rng.range(1, 3) as usize;
         let mut order: Vec<&str> = vec![];
         while order.len() < k {
@@ -354,7 +372,12 @@ pub fn multisource_cases(seed: u64, n: u64) -> Vec<Case> {
                 order.push(c);
             }
         }
-        let supplier = order.iter().rev().find(|x| ["dirA", "dirB", "srcC.anm"].contains(x)).cloned();
+        // a link supplies what its target supplies: the model source for dirL is dirB, for dirM dirA
+        let supplier = order.iter().rev().find(|x| ["dirA", "dirB", "srcC.anm", "dirL", "dirM"].contains(x)).map(|x| match *x {
+            "dirL" => "dirB",
+            "dirM" => "dirA",
+            o => o,
+        });
         // the first n_pragma sources of the ordering are given as `#pragma image_source` lines in a copy
         // of the script (sources named in the file precede the ones on the command line), the rest by -i
         let n_pragma = if rng.chance(1, 3) { rng.below(order.len() as u64 + 1) as usize } else { 0 };
@@ -446,13 +469,16 @@ pub fn run(ctx: &Ctx) -> CheckResult {
         let mut v: Vec<Case> = cases.iter().filter(|c| c.name.starts_with("corpus:res/th12-embedded-image-source") || c.name.starts_with("corpus:res/th12-embedded-weird")).cloned().collect();
         let n = if quick { 3 } else { 40 };
         v.extend((0..n).map(|i| generated_case(ctx.seed ^ 0xFA17, i)));
+        // one texture larger than every buffer on the way (64x64 ARGB8888 = 16 KiB): writes of this
+        // size bypass BufWriter and reach the file in one call
+        v.push(big_texture_case(ctx.seed));
         v
     };
     for base in fault_bases {
         let first = base.meta.get("first").and_then(|x| x.as_u64()).unwrap_or(0) as usize;
         let seed = rng::mix(ctx.seed, &base.name, 17);
         jobs.push(FaultJob { base: base.clone(), step: first + 1, space: FaultSpace { read_side: false, write_side: true, budgets: if quick { Budgets::BoundariesPlus(10) } else { Budgets::BoundariesPlus(200) }, seed }, noise: true, max_variants: if quick { 150 } else { 0 } });
-        jobs.push(FaultJob { base, step: first + 2, space: FaultSpace { read_side: true, write_side: false, budgets: Budgets::Boundaries, seed }, noise: true, max_variants: if quick { 120 } else { 0 } });
+        jobs.push(FaultJob { base, step: first + 2, space: FaultSpace { read_side: true, write_side: true, budgets: Budgets::Boundaries, seed }, noise: true, max_variants: if quick { 160 } else { 0 } });
     }
     let camp = run_fault_campaign(ctx, &jobs);
     stats.merge(camp.stats);
